@@ -159,6 +159,9 @@ def gen_source(rnd, fx, directed=None, funcs=None, minimal=False):
         names = list(funcs)
     else:
         names = rnd.sample(sorted(pool), rnd.choice([1, 1, 2, 2, 3]))
+        if "clash" in names:
+            # a stub importing Circle from two modules is ambiguous in itself (property C11); libcst rejects it
+            names = [x for x in names if x not in ("area_of", "both")]
         if rnd.random() < 0.08:
             names = ["annotated"]
     funcs = []
